@@ -315,11 +315,19 @@ func checkC09(c *Ctx) {
 			return false
 		}
 		nclock := 0
-		for _, cl := range core.CallsIn(f) {
+		clockFns := []*ssa.Function{f}
+		if outer != f {
+			clockFns = append(clockFns, outer) // the stamp may be taken by the mutator and the entry handed to the helper
+		}
+		var clockCalls []*core.Call
+		for _, g := range clockFns {
+			clockCalls = append(clockCalls, core.CallsIn(g)...)
+		}
+		for _, cl := range clockCalls {
 			if isClockCall(cl) {
 				nclock++
 				at := cl.Instr
-				if via != nil && !exclHeld(at) {
+				if via != nil && at.Parent() == f && !exclHeld(at) {
 					at = via.Instr // the helper runs where the mutator calls it
 				}
 				if !exclHeld(at) {
